@@ -41,6 +41,16 @@ CHECKS["C09"] = dict(
          "(see known_findings.jsonl); stylesheet-level uses of patterns are exercised in C10/C15/C17.",
     technique="TLA+ definition of pattern matching evaluated by TLC; trace validation of getMatchScore over all nodes")
 
+CHECKS["C10"] = dict(
+    category="model_checking", design_ref="DESIGN.md §5 C10",
+    text="TemplateRules.tla defines XSLT 5.5/2.6.2/5.6: per-alternative default priorities, import precedence by post-order of the import tree, "
+         "last-wins, built-in rules, apply-imports restricted to the modules imported into the current rule's module. Seeded rule sets with import trees are "
+         "rendered to stylesheet files, every node and attribute is pushed through apply-templates and the TraceListener reports which xsl:template ran; "
+         "TLC recomputes Winner / ImportsWinner (matching by the definition XPathSem!Matches) for every pick.",
+    note="Trusted: TLC, stylesheet renderer, TraceListener line numbers as template identity, derivation of apply-imports extents from the trace. "
+         "Only the quiet lookup path (XalanTransformer default) is driven so far.",
+    technique="TLA+ definition of template conflict resolution evaluated by TLC; trace validation of TraceListener picks")
+
 NOT_YET = {
 }
 
